@@ -74,3 +74,26 @@ Theorem AUX_C06_cltv_bounds_only_tighten :
       (a' <= b' \/ a' - b' < delta).
 Proof. exact CltvRuleProofs.apply_keeps_cltv_violation. Qed.
 Print Assumptions AUX_C06_cltv_bounds_only_tighten.
+
+(** Over every booking history of a record: [book] folds the translated RoutedPayment::apply over any
+    sequence of bookings (channel, amounts, optional incoming / outgoing expiry).  Starting from a
+    record whose bounds are the extrema of what was seen so far (a fresh RoutedPayment::new with
+    nothing seen is one), it never panics, and afterwards incoming_cltv_min is a lower bound of every
+    incoming expiry ever booked and is one of them, outgoing_cltv_max an upper bound of every outgoing
+    expiry ever booked and one of them - for histories of any length. *)
+Theorem AUX_C06_cltv_bounds_are_extrema_of_history :
+  forall (prof : profile) (l : list CltvRuleProofs.booking) (p : NodePaymentsGen.RoutedPayment)
+         (seen_in seen_out : list N),
+    CltvRuleProofs.opt_all_ge (NodePaymentsGen.RoutedPayment_incoming_cltv_min p) seen_in ->
+    CltvRuleProofs.opt_all_le (NodePaymentsGen.RoutedPayment_outgoing_cltv_max p) seen_out ->
+    (forall m, NodePaymentsGen.RoutedPayment_incoming_cltv_min p = Some m -> In m seen_in) ->
+    (forall m, NodePaymentsGen.RoutedPayment_outgoing_cltv_max p = Some m -> In m seen_out) ->
+    exists p', CltvRuleProofs.book prof p l = Val p' /\
+      let all_in := seen_in ++ CltvRuleProofs.somes (map CltvRuleProofs.b_ic l) in
+      let all_out := seen_out ++ CltvRuleProofs.somes (map CltvRuleProofs.b_oc l) in
+      CltvRuleProofs.opt_all_ge (NodePaymentsGen.RoutedPayment_incoming_cltv_min p') all_in /\
+      CltvRuleProofs.opt_all_le (NodePaymentsGen.RoutedPayment_outgoing_cltv_max p') all_out /\
+      (forall m, NodePaymentsGen.RoutedPayment_incoming_cltv_min p' = Some m -> In m all_in) /\
+      (forall m, NodePaymentsGen.RoutedPayment_outgoing_cltv_max p' = Some m -> In m all_out).
+Proof. exact CltvRuleProofs.book_bounds_are_extrema. Qed.
+Print Assumptions AUX_C06_cltv_bounds_are_extrema_of_history.
